@@ -92,13 +92,14 @@ def scenario(cfg, pop_ops, ro_ops, use_model=True, root=None):
                 real = ro.apply(op)
                 want = oracle.step(op)
                 mout = None
+                mlines = ro.model_lines(op) if model else []
                 if model:
-                    for ln in ro.model_lines(op):
+                    for ln in mlines:
                         mout = model.send(ln)
                 res["transcript"].append(dict(op=op, real=real, spec=want, model=mout))
                 if real != want:
                     res["fails"].append(dict(clause="read-only-answers", step=i, op=op, real=real, expected=want))
-                if model and mout != real:
+                if model and mlines and mout != real:
                     res["mismatch"].append(dict(step=i, op=op, real=real, model=mout))
                 if rec_mut(rec_events()):
                     res["fails"].append(dict(clause="no-mutation-under-storage-paths", step=i, op=op,
@@ -238,8 +239,52 @@ def function_level(chk, root):
     return fails
 
 
+def memory_scenario(pop_ops, ro_ops):
+    """the memory backend made read-only after a writable history: answers as the (read-only) dictionary, contents unchanged.
+    Custom metadata may exist for calls that were never memoized (the storage API allows it)."""
+    w = sw.World(dict(kind="mem"))
+    oracle = sw.DictOracle()
+    fails = []
+    mid = 0
+    try:
+        for op in pop_ops:
+            op = list(op)
+            if op[0] == "memoize":
+                mid += 1
+                op = op[:5] + [mid]
+            w.apply(op)
+            oracle.step(op)
+        be = w.be
+        be.read_only = True
+        oracle.ro = True
+
+        def contents():
+            return (sorted((k, sorted(v)) for k, v in be.mementos.items() if v), sorted(be.result), sorted((k, sorted(v.items())) for k, v in be.metadata.items() if v))
+        before = contents()
+        for i, op in enumerate(ro_ops):
+            op = list(op)
+            if op[0] == "memoize":
+                mid += 1
+                op = op[:5] + [mid]
+            real = w.apply(op)
+            want = oracle.step(op)
+            if real != want:
+                fails.append(dict(clause="read-only-answers", backend="memory", step=i, op=op, real=real, expected=want))
+                break
+            if contents() != before:
+                fails.append(dict(clause="no-mutation-under-storage-paths", backend="memory", step=i, op=op))
+                break
+    finally:
+        w.close()
+    return fails
+
+
 def main(chk, replay=None):
     if replay is not None:
+        if replay.get("level") == "memory":
+            f = memory_scenario(replay["populate"], replay["ops"])
+            print(json.dumps(dict(still_fails=bool(f), observed=f[:3]), default=str))
+            return 1 if f else 0
         if replay.get("level") == "function":
             f = function_level(chk, None)
             print(json.dumps(dict(still_fails=bool(f), observed=f[:3]), default=str))
@@ -258,6 +303,20 @@ def main(chk, replay=None):
     rng = chk.rng
     n = 30 if quick else 500
     failures = 0
+    # memory backend, read-only: directed histories (metadata of a never-memoized call; forgetting a function without entries)
+    mem_cases = [
+        ([["memoize", 1, 1, None, 3], ["wmeta", 1, 1, 1, 4], ["wmeta", 2, 1, 1, 5], ["wmeta", 4, 2, 2, 6]],
+         [["ffn", 2], ["ffn", 4], ["rmeta", 2, 1, 1], ["rmeta", 4, 2, 2], ["ffn", 5], ["fcall", 2, 1], ["fcall", 1, 1], ["ffn", 1], ["fall"],
+          ["lookread", 1, 1], ["rmeta", 1, 1, 1], ["memoize", 1, 2, None, 7], ["ismem", 1, 2], ["wmeta", 1, 1, 2, 9], ["rmeta", 1, 1, 2]]),
+    ] + [(sw.gen_ops(rng, rng.randint(3, 12), fns=[1, 2, 4]), sw.gen_ops(rng, rng.randint(4, 20), fns=[1, 2, 4, 5])) for _ in range(10 if quick else 200)]
+    for pop, ops in mem_cases:
+        mf = memory_scenario(pop, ops)
+        chk.case(["memory-read-only", pop, ops], sample=dict(kind="memory backend read-only", populate=pop[:3], ops=ops[:5]))
+        chk.count("memory-read-only")
+        if mf and failures < 3:
+            failures += 1
+            chk.violation({"what": "read-only memory backend: %s at %s" % (mf[0]["clause"], mf[0]["op"]), "class": {"clause": mf[0]["clause"], "backend": "memory"},
+                           "level": "memory", "populate": pop, "ops": ops, "observed": mf[:2]})
     for i in range(n):
         cfg = RO_CONFIGS[i % len(RO_CONFIGS)]
         pop = sw.gen_ops(rng, rng.randint(3, 15), fns=[1, 2, 4, 5])
